@@ -351,6 +351,10 @@ def run_shard(ctx):
             import traceback
             v = [(f"reference-run/raised:{type(e).__name__}", f"{e} {traceback.format_exc()[-600:]}")]
         for sig, what in v: ctx.violation(sig, what, case)
+    if X.WATCHDOG_LOG:
+        # a watchdog that fired decided nothing (the run was repeated), but it is recorded: how often, and what the run was waiting for
+        ctx.count("watchdog.multiproc-run-repeated", len(X.WATCHDOG_LOG))
+        ctx.extra["watchdog_firings"] = [{"cfg": w["cfg"], "timeout_s": w["timeout_s"], "stacks_tail": w["stacks"][-2500:]} for w in X.WATCHDOG_LOG[:2]]
 
 def replay(witness):
     return check_case(witness)
